@@ -898,3 +898,81 @@ def _layout_list(ed):
     if isinstance(ed, list):
         return [_layout_list(e) for e in ed]
     return ed.get('order', 'C')
+
+
+# --------------------------------------------------------------------------
+# exhaustive sub-space: every per-side nodes_on_bdry combination
+
+EXHAUSTIVE = {
+    'quick': ['uniform_discr, 1 axis (sizes 1, 2, 3, 5) and 2 axes (shapes '
+              '(2, 3), (1, 2), (3, 3)): every combination of nodes_on_bdry '
+              'per axis side x exponent in {2, 1, inf, 1.5} x {cell volume '
+              'exactly 1.0, generic limits} x {float64, complex128}, default '
+              'weighting, fixed element data'],
+    'thorough': ['as quick, plus 3 axes (shape (2, 2, 3)): all 64 per-side '
+                 'combinations x exponent in {2, 1.5} x {unit cell volume, '
+                 'generic limits}, and constant / array weighting for the '
+                 '1- and 2-axis grids with exponent 2'],
+}
+
+
+def _enum_data(shape, dtype, k):
+    n = int(np.prod(shape, dtype=int))
+    vals = [(((i + k) * 7 + 3) % 11) - 5 + 0.5 * ((i + k) % 2)
+            for i in range(n)]
+    if np.dtype(dtype).kind == 'c':
+        vals = [complex(v, ((i * 5 + k) % 7) - 3) for i, v in enumerate(vals)]
+    return {'dtype': dtype, 'shape': list(shape), 'order': 'C',
+            'data': np.reshape(np.array(vals, dtype=object), shape).tolist()}
+
+
+def enumerate_cases(tier):
+    import itertools
+    shapes = [[1], [2], [3], [5], [2, 3], [1, 2], [3, 3]]
+    exps = [2.0, 1.0, INF, 1.5]
+    if tier == 'thorough':
+        shapes = shapes + [[2, 2, 3]]
+    for shape in shapes:
+        nd = len(shape)
+        sides = list(itertools.product([False, True], repeat=2 * nd))
+        for flags in sides:
+            nob = [[flags[2 * a], flags[2 * a + 1]] for a in range(nd)]
+            if any(n == 1 and l and r for n, (l, r) in zip(shape, nob)):
+                continue
+            for mode in ('unit', 'generic'):
+                mins, maxs = [], []
+                for a, (n, (l, r)) in enumerate(zip(shape, nob)):
+                    lo = [0.0, -1.0, 0.5][a]
+                    if mode == 'unit':
+                        ext = (n - (l + r) / 2.0) if n > 1 else 1.0
+                    else:
+                        ext = [1.7, 0.3, 2.9][a]
+                    mins.append(lo)
+                    maxs.append(lo + ext)
+                wopts = [None]
+                if tier == 'thorough' and nd < 3:
+                    n = int(np.prod(shape, dtype=int))
+                    wopts += [{'type': 'const', 'value': 1.0},
+                              {'type': 'const', 'value': 2.5},
+                              {'type': 'array', 'data': np.reshape(
+                                  [1.0 + 0.5 * (i % 3) for i in range(n)],
+                                  shape).tolist()}]
+                for w in wopts:
+                    for p in (exps if nd < 3 and w is None else
+                              ([2.0, 1.5] if w is None else [2.0])):
+                        for dtype in (('float64', 'complex128') if nd < 3
+                                      and w is None else ('float64',)):
+                            sd = {'kind': 'discr', 'min': mins, 'max': maxs,
+                                  'shape': list(shape), 'nodes_on_bdry': nob,
+                                  'dtype': dtype, 'exponent': p,
+                                  'weighting': w}
+                            kind = 'cplx' if dtype == 'complex128' else \
+                                'real'
+                            yield {
+                                'space': sd, 'kind': kind,
+                                'x': _enum_data(shape, dtype, 0),
+                                'y': _enum_data(shape, dtype, 3),
+                                'z': _enum_data(shape, dtype, 8),
+                                's': {'cls': 'generic', 'value': -1.5},
+                                't': {'cls': 'generic', 'value': 0.75},
+                                'xclass': 'generic'}
